@@ -6,7 +6,7 @@ import runner_props
 PROP = "C10"
 LEAN_MODULES = ["PamsProps.C10"]
 NAMESPACES = ["Pams.C10"]
-DRIVERS = ["Market", "Runner"]
+DRIVERS = ["Market", "Runner", "Pure"]
 TRUSTED = [
     "Logger.process dispatch by isinstance is observed, not modelled: a recording Logger subclass overrides write/bulk_write/write_and_direct_process/_process/process_* and delegates",
     "scheduler model: markets/agents/events/draws are oracles (tape recorded from the real run)",
@@ -27,10 +27,69 @@ def merge(a, b):
     return out
 
 
+def logger_units(ctx, n):
+    """random write / bulk_write / direct / flush sequences on a real Logger vs the Lean queue model"""
+    from common import LeanDriver
+    from pams.logs.base import Logger, OrderLog
+    from pams.order import LIMIT_ORDER
+    rng = ctx.rng("logger")
+    lines, expects = [], []
+
+    class L(Logger):
+        def __init__(self):
+            super().__init__()
+            self.got = []
+
+        def process_order_log(self, log):
+            self.got.append(log.order_id)
+
+    def mk(x):
+        return OrderLog(order_id=x, market_id=0, time=0, agent_id=0, is_buy=True, kind=LIMIT_ORDER, volume=1, price=1.0)
+    for i in range(n):
+        lg = L()
+        toks = ["logger"]
+        k = 0
+        for _ in range(rng.randint(1, 25)):
+            r = rng.random()
+            if r < 0.4:
+                k += 1
+                lg.write(mk(k))
+                toks += ["w", str(k)]
+            elif r < 0.6:
+                xs = list(range(k + 1, k + 1 + rng.randint(0, 4)))
+                k += len(xs)
+                lg.bulk_write([mk(x) for x in xs])
+                toks += ["b", str(len(xs))] + [str(x) for x in xs]
+            elif r < 0.75:
+                k += 1
+                lg.write_and_direct_process(mk(k))
+                toks += ["d", str(k)]
+            else:
+                lg._process()
+                toks += ["f"]
+        lines.append(" ".join(toks))
+        expects.append((list(lg.got), [l.order_id for l in lg.pending_logs], toks))
+    diffs = []
+    out, err, dt = LeanDriver("Pure").run(lines)
+    if out is None:
+        return 0, [{"channel": "driver", "detail": err[-1500:]}]
+    for o, (got, pend, toks) in zip(out, expects):
+        d, p = o[1:].split("|")
+        model = ([int(x) for x in d.split()], [int(x) for x in p.split()])
+        if model != (got, pend):
+            diffs.append({"channel": "logger.queue", "model": model, "impl": (got, pend), "ops": toks})
+    return len(lines), diffs
+
+
 def run(ctx, model_available=True):
     a = market_checks.run_market_property(ctx, PROP, n_quick=200, model_available=model_available)
     b = runner_props.run_runner_property(ctx, PROP, n_quick=50, model_available=model_available)
-    return merge(a, b)
+    res = merge(a, b)
+    if model_available:
+        n, diffs = logger_units(ctx, 300 * (ctx.scale if ctx.tier == "thorough" else 1))
+        res["diffs"] += diffs[:20]
+        res["comparisons"]["logger_sequences_compared"] = n
+    return res
 
 
 def search(ctx, res):
